@@ -189,6 +189,16 @@ CHECKS = {
         "character for character with encoders that share no code with the library, and every near-valid string is parsed by every entry "
         "point with the specification's verdict, decoded fields and canonical form compared.",
    note="content-dependent strings excluded; bech32 (unblinded) checksum code lives in the bech32 crate, blech32 in the repository."),
+ "C20": dict(
+   cat="model_checking", design="§4 C20",
+   technique="TLA+ table of serde field names per type / variant, variant-selection functions and string tables, checked exhaustively by "
+             "TLC; JSON and CBOR round trips, emitted field names and Display / FromStr pairs replayed over the structural variety of the "
+             "Wire and PsetCodec families",
+   text="At the level where the hand-written and derived (de)serializers make decisions -- field names, variant selection by present "
+        "names, string tables -- TLC checks duplicate freedom, recoverability and injectivity (the duplicate `version` key of the PSET "
+        "global map was reported by the model itself); the harness serializes real values of every listed type in JSON and CBOR, compares "
+        "the emitted names with the table, deserializes and compares for equality, and parses every printed form back.",
+   note="leaf codecs sampled; serde_json 1.x / serde_cbor 0.8; one known finding (CBOR + flatten + enum)."),
 }
 NA_PENDING = "check not built yet in this round (planned, see DESIGN.md §4)"
 
